@@ -66,6 +66,13 @@ SHAPES = [
     ("no use of the defined macros", [SHIFT, ZERO], [S("X"), {S("M"): [S("O")]}], [S("X"), {S("M"): [S("O")]}]),
     ("parameterised macro called with nested argument spelling", [ZERO], [{"@zero": {"reg": S("R1")}}, {"@zero": {"reg": S("R2")}}],
      [zero(S("R1")), zero(S("R2"))]),
+    ("formal parameter names that occur inside other names of the body",
+     [{"name": "@emb", "args": ["reg", "r", "0"], "pattern": [{"$and": [
+         {"xor": ["reg", "&genreg.64"]}, {"mov": ["r", "%reg", "reg.32"]},
+         {"or": ["0", "0x10", {"$deref": {"main_reg": "r", "constant_offset": "0x0"}}]}]}]}],
+     [{"@emb": {"reg": "rdi", "r": 7, "0": S("Z")}}],
+     [{"$and": [{"xor": ["rdi", "&genreg.64"]}, {"mov": [7, "%reg", "reg.32"]},
+                {"or": [S("Z"), "0x10", {"$deref": {"main_reg": 7, "constant_offset": "0x0"}}]}]}]),
     ("parameterised macro whose argument is a list value", [{"name": "@two", "args": ["ops"], "pattern": [{S("MM"): "ops"}]}],
      [{"@two": {"ops": [S("A1"), S("A2")]}}, {"@two": {"ops": [S("A3")]}}], [{S("MM"): [S("A1"), S("A2")]}, {S("MM"): [S("A3")]}]),
 ]
